@@ -15,7 +15,6 @@
 #
 import enum
 import struct
-from collections.abc import Sequence
 from dataclasses import dataclass, field
 from typing import Any, Optional, Union
 
@@ -337,7 +336,14 @@ class Characteristic(TLVStruct):
 class Service(TLVStruct):
     # permission bits
     service_properties: u16 = tlv_entry(HAP_TLV.kTLVHAPParamHAPServiceProperties)
-    linked_services: Sequence[u16] = tlv_entry(HAP_TLV.kTLVHAPParamHAPLinkedServices)
+    # The linked services are a packed list of 16 bit instance ids, not a list
+    # of TLVs, so they are kept as raw bytes here and unpacked on access.
+    linked_services: bytes = tlv_entry(HAP_TLV.kTLVHAPParamHAPLinkedServices)
+
+    @property
+    def linked_service_ids(self) -> list[int]:
+        data = self.linked_services or b""
+        return [int.from_bytes(data[offset : offset + 2], "little") for offset in range(0, len(data) - 1, 2)]
 
     @property
     def primary_service(self) -> bool:
@@ -360,7 +366,7 @@ class Service(TLVStruct):
             "perms": perms,
         }
 
-        if self.linked_services:
-            result["linked"] = self.linked_services
+        if linked := self.linked_service_ids:
+            result["linked"] = linked
 
         return result
